@@ -563,7 +563,68 @@ def directed_cases(ctx):
             if outcomes != want:
                 ctx.violation("alias_view", f"{'Deprecated' if deprecated else ''}Alias('owner', transform=lambda o: o.name{', fallback=...' if has_fallback else ''}) read with the target missing / None / named: {outcomes}, expected {want}",
                               features=feats, case=["directed_transform_error", has_fallback, deprecated])
-    ctx.sig("directed", "paths", "collection_alias", "transform_error")
+    # (4) several non-passthrough aliases of one target are overridden independently; (5) None is a local value like any other
+    def make_plain():
+        class PlainHost:
+            def __init__(self):
+                self.x = 1
+
+        for nm, al in (("y", Alias("x")), ("z", Alias("x", transform=lambda v: v * 10)), ("w", Alias("x", fallback=-1))):
+            setattr(PlainHost, nm, al)
+            al.__set_name__(PlainHost, nm)
+        return PlainHost
+
+    def make_spec():
+        return cg_exec(SIBLING_SRC)["SpecHost"]
+
+    for host_kind, make in (("plain", make_plain), ("spec", make_spec)):
+        H = make()
+        scenarios = [
+            ("h.y = 5; read z, w, x", lambda h: (setattr(h, "y", 5), (h.y, h.z, h.w, h.x))[1], (5, 10, 1, 1)),
+            ("h.y = 5; del h.z (nothing to delete) leaves y", lambda h: (setattr(h, "y", 5), _try_del(h, "z"), (h.y, h.z))[2], (5, 10)),
+            ("h.y = 5; h.z = 7; del h.y", lambda h: (setattr(h, "y", 5), setattr(h, "z", 7), delattr(h, "y"), (h.y, h.z, h.x))[3], (1, 7, 1)),
+            ("h.y = None; read y, then x = 3", lambda h: (setattr(h, "y", None), h.y, setattr(h, "x", 3), h.y, h.x)[1::2] + (h.x,), (None, None, 3)),
+            ("h.w = None (alias with fallback)", lambda h: (setattr(h, "w", None), h.w)[1], None),
+            ("h.y = None; del h.y restores the live view", lambda h: (setattr(h, "y", None), delattr(h, "y"), h.y)[2], 1),
+        ]
+        if host_kind == "spec":
+            scenarios += [
+                ("H(y=None).y", lambda h: H(y=None).y, None),
+                ("h.with_y(None).y / x", lambda h: (lambda r: (r.y, r.x))(h.with_y(None)), (None, 1)),
+                ("h.with_y(5).z / w", lambda h: (lambda r: (r.y, r.z, r.w))(h.with_y(5)), (5, 10, 1)),
+                ("deepcopy(h.with_y(None)).y", lambda h: copy.deepcopy(h.with_y(None)).y, None),
+            ]
+        for label, fn, want in scenarios:
+            ctx.count("ops_judged")
+            ctx.count("directed_sibling_and_none_cases")
+            feats = {"shape": "directed_sibling_none", "op": "wa", "host": host_kind, "none": "None" in label}
+            try:
+                got = fn(H())
+            except Exception as e:
+                got = f"{type(e).__name__}: {e}"
+            if got != want:
+                ctx.violation("alias_view", f"[{host_kind} class; y, z (x10), w (fallback) alias x = 1] {label}: {got!r}, expected {want!r}", features=feats, case=["directed_sibling_none", host_kind, label])
+    ctx.sig("directed", "paths", "collection_alias", "transform_error", "siblings_none")
+
+
+SIBLING_SRC = """
+from typing import Optional
+from spec_classes import spec_class, Alias
+
+@spec_class(bootstrap=True)
+class SpecHost:
+    x: Optional[int] = 1
+    y: Optional[int] = Alias("x")
+    z: Optional[int] = Alias("x", transform=lambda v: v * 10)
+    w: Optional[int] = Alias("x", fallback=-1)
+"""
+
+
+def _try_del(h, name):
+    try:
+        delattr(h, name)
+    except AttributeError:
+        pass
 
 
 class _Named:
